@@ -1,6 +1,7 @@
 package an
 
 import (
+	"sync"
 	"strings"
 	"go/constant"
 	"go/token"
@@ -1029,6 +1030,19 @@ func (g *GateResult) atomTruth(a *atom, op token.Token, v int64) int {
 	return 0
 }
 
+// SemPred, when set, classifies a one-argument helper by abstract evaluation (used when its
+// code is beyond the structural analysis below: loops, calls of other helpers).
+var (
+	semPredMu     sync.Mutex
+	semPredByProg = map[*ssa.Program]func(f *ssa.Function, bits int) *predSets{}
+)
+
+func semPredOf(f *ssa.Function) func(f *ssa.Function, bits int) *predSets {
+	semPredMu.Lock()
+	defer semPredMu.Unlock()
+	return semPredByProg[f.Prog]
+}
+
 // predicate analyses a one-argument boolean helper `func(n int) bool` of the module.
 func (g *GateResult) predicate(f *ssa.Function) *predSets {
 	if g.preds == nil {
@@ -1037,6 +1051,15 @@ func (g *GateResult) predicate(f *ssa.Function) *predSets {
 	if ps, ok := g.preds[f]; ok {
 		return ps
 	}
+	ps := g.predicateStruct(f)
+	if sp := semPredOf(f); ps == nil && sp != nil && len(f.Params) == 1 && isIntType(f.Params[0].Type()) {
+		ps = sp(f, g.Bits)
+	}
+	g.preds[f] = ps
+	return ps
+}
+
+func (g *GateResult) predicateStruct(f *ssa.Function) *predSets {
 	g.preds[f] = nil // recursion guard
 	p := f.Params[0]
 	if !isIntType(p.Type()) {
